@@ -2,6 +2,7 @@ import Bclv.Proofs.LineCalc
 import Bclv.Proofs.DumpLoad
 import Bclv.Proofs.LexSlice3
 import Bclv.Proofs.LexChunk
+import Bclv.Proofs.ParserTok
 /-!
 # C08 — diagnostics point at the true source location
 
@@ -12,9 +13,14 @@ ahead and of chunking), and the line table survives dump and load.
 `token_text`: the position recorded in a token is the offset at which its text ends in the
 source — every token that has a text carries exactly the piece of the input that ends at
 its recorded position (so the `at '…'` of a diagnostic quotes the source text that ends at the
-`L:C` it prints), for the whole-input lexer and for every way of chunking the input.  Which
-token a diagnostic or an instruction is attributed to is part of the parser and compiler
-model, checked by correspondence (streams `positions`, `progs`) and by the direct oracle that
+`L:C` it prints), for the whole-input lexer and for every way of chunking the input.
+`diagnostics_point_at_tokens`: every compile diagnostic is the line the parser writes for a
+token of the input — `line L:C: error at '…'` with `L:C` the line calculator's answer for that
+token's recorded position and `…` that token's text; with `token_text` and `lineColAt_spec` this
+chains to: the line and column, by their definition, of the offset at which the quoted piece of
+the source ends.  *Which* token an error is attributed to (the current or the previous one),
+and the positions attached to instructions for runtime errors, are part of the parser and
+compiler model, checked by correspondence (streams `positions`, `progs`) and by the direct oracle that
 recounts newlines in the source for every printed `L:C`.
 -/
 namespace Bclv.C08
@@ -76,6 +82,23 @@ theorem slice_spelled_out (input : Bytes) (q : Nat) (v : Bytes) (h : SliceAt inp
       exact this.symm
     rw [← this, List.take_append_drop]
   · simp only [List.length_take]; omega
+
+/-- **Every compile diagnostic points at a token of the source**: it is `diagLine` — the line
+`line L:C: error at 'text': message` — for a token the lexer made of the input (or for the
+placeholder the parser starts with), with `L:C` computed from that token's recorded position
+and `text` that token's text, which is the piece of the source ending at that position. -/
+theorem diagnostics_point_at_tokens (input : Bytes) :
+    ∃ entries : List Bytes, (parseTokens (lexWhole input) (newlinesFrom 0 input)).log = entries.flatten ∧
+      ∀ e ∈ entries, ∃ t msg, (t = noToken ∨ t ∈ lexWhole input) ∧ e = diagLine (newlinesFrom 0 input) t msg ∧
+        (t.val = [] ∨ SliceAt input t.pos t.val) := by
+  obtain ⟨entries, hlog, hent⟩ := diagnostics_are_token_lines (lexWhole input) (newlinesFrom 0 input)
+  refine ⟨entries, hlog, fun e he => ?_⟩
+  obtain ⟨t, ht, msg, rfl⟩ := hent e he
+  refine ⟨t, msg, ?_, rfl, ?_⟩
+  · simpa using ht
+  · rcases List.mem_cons.mp ht with rfl | ht
+    · exact .inl rfl
+    · exact token_text_is_slice input t ht
 
 /-- non-vacuity: the tokens of `print x1` -/
 example : (lexWhole [112, 114, 105, 110, 116, 32, 120, 49]).map (fun t => (t.pos, t.val)) =
